@@ -85,9 +85,65 @@ def constraints_for(g: gen.Gen, r):
     return out
 
 
+def vector_only(g: gen.Gen, r):
+    """Objective and constraints over ONE vector whose elements are all the problem's variables, so that the O(1) extraction
+    paths are eligible: whole vector, copies, reversed, strided (interleaved with the rest), partial views; coefficient arrays
+    with pairwise distinct entries; element terms before and after a sum of the same vector."""
+    from optyx import VectorVariable
+    n = r.randint(2, 6)
+    x = VectorVariable(r.choice(["x", "v", "w"]), n)
+    def views():
+        vs = [x, x[:], x[0:n], x[::-1]]
+        if n >= 3:
+            vs += [x[::2], x[1::2], x[0:n - 1], x[1:n], x[::-2]]
+        return vs
+    def arr(m):
+        b = r.choice([1.0, 0.5, 2.0])
+        return np.array([b * (k + 1) * (-1 if k == 1 else 1) for k in range(m)])
+    def form():
+        w = r.choice(views())
+        k = r.randrange(9)
+        i = r.randrange(n)
+        if k == 0:
+            return arr(w.size) @ w
+        if k == 1:
+            return w @ arr(w.size) + r.choice([0, 2.5, -1])
+        if k == 2:
+            return w.sum()
+        if k == 3:
+            return r.choice([2, -1, 0.5]) * x[i] + w.sum()            # element term BEFORE a sum containing it
+        if k == 4:
+            return w.sum() + r.choice([2, -1, 0.5]) * x[i]
+        if k == 5:
+            return x[i] - w.sum()
+        if k == 6:
+            return r.choice([2, 3]) * w.sum() - arr(w.size) @ w
+        if k == 7:
+            return arr(w.size) @ w - r.choice([1, 4])
+        return (arr(w.size) @ w) * 2 + x[i]
+    obj = form()
+    cons = []
+    for _ in range(r.randint(1, 4)):
+        c = r.choice([1, 2, 10, 0.5, -3])
+        e = form()
+        cons.append(r.choice([lambda: e <= c, lambda: e >= c, lambda: e.eq(c), lambda: c <= e])())
+    if r.random() < 0.6:
+        cons += list(x >= 0)              # makes every element a problem variable
+    else:
+        cons.append(x.sum() <= 100)
+    return obj, cons
+
+
 def point_identity_witness(P, data, rng):
     """c.x + c0 = obj(x) and row identities at rational points, with the implementation's evaluate()."""
     names = data.variables
+    n_eq = sum(1 for con in P.constraints if con.sense == "==")
+    n_ub = len(P.constraints) - n_eq
+    got_ub = 0 if data.A_ub is None else len(data.A_ub)
+    got_eq = 0 if data.A_eq is None else len(data.A_eq)
+    if (got_ub, got_eq) != (n_ub, n_eq):
+        return {"what": "row count", "inequality_rows": [got_ub, n_ub], "equality_rows": [got_eq, n_eq],
+                "constraints": [repr(c)[:120] for c in P.constraints]}
     for _ in range(8):
         pt = {n: rng.choice(common.NICE) for n in names}
         x = np.array([pt[n] for n in names])
@@ -112,7 +168,7 @@ def point_identity_witness(P, data, rng):
 
 def run(rep: vk.Report):
     vk.proof_stage(rep, "C05")
-    n = 500 if rep.tier == "quick" else 15000
+    n = 700 if rep.tier == "quick" else 15000
     rng = common.rng_for(rep.seed, "C05")
     from optyx import Problem
     from optyx.analysis import LinearProgramExtractor, extract_linear_coefficient, is_linear
@@ -121,12 +177,19 @@ def run(rep: vk.Report):
     unsupported = 0
     errors = {}
     forms = {}
+    streams = {}
     for i in range(n):
         r = random.Random(rng.random())
         g = gen.Gen(r, profile="poly")
         try:
-            obj = linear_expr(g)
-            cons = [c for c in constraints_for(g, r) if is_linear(c.expr)]
+            if i % 5 < 2:
+                obj, cons = vector_only(g, r)
+                cons = [c for c in cons if is_linear(c.expr)]
+                streams["vector-only"] = streams.get("vector-only", 0) + 1
+            else:
+                obj = linear_expr(g)
+                cons = [c for c in constraints_for(g, r) if is_linear(c.expr)]
+                streams["general"] = streams.get("general", 0) + 1
         except Exception as ex:
             errors["gen:" + type(ex).__name__] = errors.get("gen:" + type(ex).__name__, 0) + 1
             continue
@@ -179,6 +242,7 @@ def run(rep: vk.Report):
                    "constant-valued factors, reflected comparisons, vector constraints), both orientations; all LPData fields "
                    "compared exactly with the model; distinct = distinct serialised case, non-trivial = >= 2 node kinds")
     cov["samples"] = [c[:500] for c in cases.terms[:3]]
+    cov["streams"] = streams
     cov["constraint_sense_histogram"] = forms
     cov["node_kind_histogram"] = dict(sorted(cases.hist.items()))
     cov["unsupported_by_serialiser"] = unsupported
